@@ -94,6 +94,40 @@ extern "C" void c02_anchor_points()
   vf_reach("anchor_points");
 }
 
+// to-geodetic conversion of the point dh above the anchor returns the anchor's latitude / longitude and height h + dh
+// (symbolically: the ECEF latitude iteration is abstracted by its last step, started at the true latitude;
+//  concretely: the real iteration, 1 mm / 1e-9 rad)
+extern "C" void c02_geodetic_inverse()
+{
+  Anchor a = anchor("lat", "lon", "h");
+  ENUConverter enu;
+  ellipsoid(enu.ecefConverter_.ellipsoid_);
+  enu.setAnchor(makeGeodeticCoordinates(a.lat, a.lon, a.h));
+  double dh = vf_f64("dh");
+  vf_assume((dh >= -1e4) & (dh <= 1e4));
+  if (vf_symbolic()) {
+    const double el_a = enu.ecefConverter_.ellipsoid_.a, e2 = enu.ecefConverter_.ellipsoid_.e2;
+    Eigen::Vector3d P = enu.toECEF(Eigen::Vector3d(0, 0, dh));
+    Eigen::Vector3d Pref = enu.ecefConverter_.toECEF(makeGeodeticCoordinates(a.lat, a.lon, a.h + dh));
+    vf_lemma(eq3(P, Pref), "point-above-anchor-in-ecef-is-the-geodetic-point-h-plus-dh");
+    const double N = el_a / (sqrt(1.0 - e2 * sin(a.lat) * sin(a.lat)));
+    vf_lemma(N + a.h + dh > 6000000.0, "N-plus-h-is-positive");
+    vf_lemma(sqrt(Pref[0] * Pref[0] + Pref[1] * Pref[1]) == (N + a.h + dh) * cos(a.lat), "horizontal-radius-is-(N+h)cos(lat)");
+  }
+  vf_havoc_is(0, a.lat);
+  GeodeticCoordinates g = enu.toWGS84(Eigen::Vector3d(0, 0, dh));
+  if (vf_symbolic()) {
+    vf_lemma(vf_angle_eq(g.latitude, a.lat), "to-geodetic-returns-the-anchor-latitude");
+    vf_check(vf_angle_congruent(g.longitude, a.lon), "to-geodetic-returns-the-anchor-longitude");
+    vf_check(vf_eq(g.altitude, a.h + dh), "to-geodetic-returns-height-h-plus-dh");
+  } else {
+    vf_check(vf_near(g.latitude, a.lat, 1e-9), "to-geodetic-returns-the-anchor-latitude");
+    vf_check(vf_angle_congruent(g.longitude, a.lon), "to-geodetic-returns-the-anchor-longitude");
+    vf_check(std::fabs(g.altitude - (a.h + dh)) <= 1e-3, "to-geodetic-returns-height-h-plus-dh");
+  }
+  vf_reach("geodetic_inverse");
+}
+
 // isometry and mutual inverses, with the frame cut to opaque orthonormal entries
 extern "C" void c02_isometry()
 {
